@@ -761,7 +761,8 @@ class Interp:
         # copy, an element of an argument tuple, the caller's variable when a helper shifts its argument in place):
         # the old abstract value forwards to the new one
         if isinstance(st.target, ast.Name) and isinstance(cur, Value) and r is not cur and type(cur).__module__ != __name__ \
-                and getattr(self.dom, 'alias_inplace', True):
+                and type(cur).__name__ not in ('Sym', 'Dim', 'Scalar') and getattr(self.dom, 'alias_inplace', True):
+            # (symbolic scalars are immutable Python numbers: `k += 1` rebinds k only)
             self.fwd[id(cur)] = (cur, r)
         self.assign(st.target, r, frame, st, aug=True)
 
